@@ -178,6 +178,9 @@ class SysAdapter(Adapter):
         if act == 'Edit':
             self.edit(w, l['item'], l['ver'])
             return obs
+        if act == 'CopySystem':
+            w['sys'] = copy.deepcopy(s)
+            return obs
         if act == 'Drop':
             w['prisms'].pop(0)
             w['results'].pop(0)
